@@ -72,6 +72,9 @@ class Ctx:
         self._cache = {}
 
 
+from absint import Budget
+
+
 def run_rules(prop, rules, ctx):
     """rules: list of (rule_id, fn(ctx)->Report)"""
     reports = []
@@ -83,6 +86,11 @@ def run_rules(prop, rules, ctx):
         except AnchorMissing as e:
             rep = Report(rid, "(rule could not run)")
             rep.bad("anchor", "anchor missing: %s — the construct this rule is about is not in the tree under the name the rule knows; the rule fails closed" % e.what)
+        except Budget as e:
+            # the code under this rule has more paths than the interpreter explores (far more than today's tree has): the
+            # rule cannot say that the property holds, and fails closed like a missing anchor
+            rep = Report(rid, "(rule could not run to completion)")
+            rep.bad("analysis-budget", "the code this rule is about could not be analysed within the path budget (%s): it is far more branching than the tree the rule was written against; the rule fails closed" % e)
         except Exception as e:  # internal error of the checker: reported as such, exit 2
             rep = Report(rid, "(internal error)")
             rep.internal_error = "%s: %s\n%s" % (type(e).__name__, e, traceback.format_exc())
